@@ -142,11 +142,10 @@ structure Trace (wb : Workbook) (doc : Node) (f : Fields) (lists : List (Str × 
   hdec : decorateAll (lists.map (·.1)) 2 rows = .ok drows
   hform : formOut f.name (lists.map (·.1)) rows [] = .ok o
   hpar : dparse drows = .ok ditems
-  hmeta : metaKids rows [] = [iidQ]
   hbinds : bindsOkL (elsOf f.name (dWithMeta f.name rows ditems)) [(f.name, .group)] (dWithMeta f.name rows ditems) = true
   hctl : ctlOkL ditems = true
   hdoc : doc = assemble f none (instNodes (defaultsOfL [f.name] ditems) [f.name] (ntKids o.inst))
-    ((Choices.staticInsts [] (othersApplied rows lists)).map Choices.instNode ++
+    ((Choices.staticInsts [] (othersApplied (activeRows rows) lists)).map Choices.instNode ++
       bindNodesL (elsOf f.name (dWithMeta f.name rows ditems)) [(f.name, .group)] (dWithMeta f.name rows ditems))
     (bodyNodesL (elsOf f.name (dWithMeta f.name rows ditems)) [f.name] ditems)
   hvalid : validDoc [] doc = true
@@ -191,27 +190,23 @@ theorem convertDoc_trace (wb : Workbook) (doc : Node) (h : convertDoc wb = .ok d
                         · rename_i ditems hdi
                           split at h
                           · simp at h
-                          · rename_i hm
+                          · rename_i hs
                             split at h
                             · simp at h
-                            · rename_i hs
+                            · rename_i hb
                               split at h
                               · simp at h
-                              · rename_i hb
+                              · rename_i hc
                                 split at h
                                 · simp at h
-                                · rename_i hc
-                                  split at h
+                                · split at h
+                                  · rename_i hv
+                                    simp only [Except.ok.injEq] at h
+                                    refine ⟨f, _, rows, drows, o, ditems, ⟨hf, ⟨key, hkey, hrows⟩, hdrows, ho, hdi, ?_, ?_, h.symm, ?_⟩⟩
+                                    · simpa using hb
+                                    · simpa using hc
+                                    · rw [← h]; exact hv
                                   · simp at h
-                                  · split at h
-                                    · rename_i hv
-                                      simp only [Except.ok.injEq] at h
-                                      refine ⟨f, _, rows, drows, o, ditems, ⟨hf, ⟨key, hkey, hrows⟩, hdrows, ho, hdi, ?_, ?_, ?_, h.symm, ?_⟩⟩
-                                      · simpa [iidQ] using hm
-                                      · simpa using hb
-                                      · simpa using hc
-                                      · rw [← h]; exact hv
-                                    · simp at h
 
 #print axioms convertDoc_trace
 
@@ -417,7 +412,7 @@ end
 
 theorem trace_partsDom {wb doc f lists rows drows o ditems} (_T : Trace wb doc f lists rows drows o ditems) :
     PartsDom none (instNodes (defaultsOfL [f.name] ditems) [f.name] (ntKids o.inst))
-      ((Choices.staticInsts [] (othersApplied rows lists)).map Choices.instNode ++
+      ((Choices.staticInsts [] (othersApplied (activeRows rows) lists)).map Choices.instNode ++
         bindNodesL (elsOf f.name (dWithMeta f.name rows ditems)) [(f.name, .group)] (dWithMeta f.name rows ditems))
       (bodyNodesL (elsOf f.name (dWithMeta f.name rows ditems)) [f.name] ditems) :=
   ⟨fun ks h => (by cases h), isDom_instNodes _ _ _,
@@ -1382,7 +1377,7 @@ end
 theorem namesClean_of_sources {wb : Workbook} {doc : Node} {f : Fields} {lists rows drows o ditems}
     (T : Trace wb doc f lists rows drows o ditems) (H : HeaderNoBr f)
     (hnames : ∀ x ∈ allNamesL (withMeta rows [] o.items), noBr x = true)
-    (hrest : noBrKids ((Choices.staticInsts [] (othersApplied rows lists)).map Choices.instNode ++
+    (hrest : noBrKids ((Choices.staticInsts [] (othersApplied (activeRows rows) lists)).map Choices.instNode ++
       bindNodesL (elsOf f.name (dWithMeta f.name rows ditems)) [(f.name, .group)] (dWithMeta f.name rows ditems)) = true)
     (hbody : noBrKids (bodyNodesL (elsOf f.name (dWithMeta f.name rows ditems)) [f.name] ditems) = true) : NamesClean doc := by
   obtain ⟨ks, items, _, _, hitems, hinst, _, _⟩ := formOut_ok _ _ _ _ _ T.hform
@@ -1400,7 +1395,7 @@ theorem namesClean_of_sources {wb : Workbook} {doc : Node} {f : Fields} {lists r
 theorem convert_c01_sources (wb : Workbook) (p : Bool) (text : Str) (h : convert wb p = .ok text)
     (hs : ∀ doc f lists rows drows o ditems, Trace wb doc f lists rows drows o ditems →
       HeaderNoBr f ∧ (∀ x ∈ allNamesL (withMeta rows [] o.items), noBr x = true) ∧
-      noBrKids ((Choices.staticInsts [] (othersApplied rows lists)).map Choices.instNode ++
+      noBrKids ((Choices.staticInsts [] (othersApplied (activeRows rows) lists)).map Choices.instNode ++
         bindNodesL (elsOf f.name (dWithMeta f.name rows ditems)) [(f.name, .group)] (dWithMeta f.name rows ditems)) = true ∧
       noBrKids (bodyNodesL (elsOf f.name (dWithMeta f.name rows ditems)) [f.name] ditems) = true) :
     holds text (normAttrVal (formId wb)) = true := by
